@@ -917,6 +917,9 @@ def Optimize(
   if max_union:
     node = node.Visit(CollapseLongUnions(max_union))
   node = node.Visit(AdjustReturnAndConstantGenericType())
+  # Turning "object" into "Any" can leave unions like "Union[int, Any]" behind.
+  # Simplify them now, so that optimizing the result again is a no-op.
+  node = node.Visit(SimplifyUnions())
   if remove_mutable:
     node = node.Visit(AbsorbMutableParameters())
     node = node.Visit(CombineContainers())
